@@ -21,10 +21,68 @@ def _normal(p):
     return not any(e.d.get("raised") for e in p.trace) and p.outcome != "raise"
 
 
+_PATTERN_ENV = {}      # closure variables of the parser factory holding a pattern (name -> pattern), set by the rule that needs them
+
+
+def _ast_pattern(n, env):
+    """pattern of a simple expression of the factory:  escapechar + '"',  escapechar * 2,  f'{escapechar}"'"""
+    if isinstance(n, ast.Constant) and isinstance(n.value, str):
+        return n.value
+    if isinstance(n, ast.Name):
+        if n.id in ("escapechar", "separator", "newline"):
+            return "<%s>" % n.id
+        return env.get(n.id)
+    if isinstance(n, ast.BinOp) and isinstance(n.op, ast.Add):
+        a, b = _ast_pattern(n.left, env), _ast_pattern(n.right, env)
+        return None if a is None or b is None else a + b
+    if isinstance(n, ast.BinOp) and isinstance(n.op, ast.Mult):
+        for x, k in ((n.left, n.right), (n.right, n.left)):
+            if isinstance(k, ast.Constant) and isinstance(k.value, int) and not isinstance(k.value, bool) and 0 <= k.value <= 8:
+                a = _ast_pattern(x, env)
+                return None if a is None else a * k.value
+        return None
+    if isinstance(n, ast.JoinedStr):
+        parts = []
+        for v in n.values:
+            if isinstance(v, ast.Constant):
+                parts.append(v.value)
+            elif isinstance(v, ast.FormattedValue) and v.conversion == -1 and v.format_spec is None:
+                parts.append(_ast_pattern(v.value, env))
+            else:
+                return None
+        return None if any(x is None for x in parts) else "".join(parts)
+    return None
+
+
+def pattern_env(fn):
+    """{name: pattern} for the names a function assigns exactly once, at its top level, to a simple pattern expression"""
+    env, count = {}, {}
+    for s in ast.walk(fn):
+        if isinstance(s, (ast.Assign, ast.AugAssign, ast.AnnAssign)):
+            for tg in (s.targets if isinstance(s, ast.Assign) else [s.target]):
+                for x in ast.walk(tg):
+                    if isinstance(x, ast.Name):
+                        count[x.id] = count.get(x.id, 0) + 1
+    for s in fn.body:
+        if isinstance(s, ast.Assign) and len(s.targets) == 1 and isinstance(s.targets[0], ast.Name) and count.get(s.targets[0].id) == 1:
+            v = _ast_pattern(s.value, env)
+            if v is not None:
+                env[s.targets[0].id] = v
+    return env
+
+
 def pattern(t):
     """String pattern of a term built from literals and the escapechar/separator parameters."""
     if t[0] == "const" and isinstance(t[1], str):
         return t[1]
+    if t[0] == "free" and t[1] in _PATTERN_ENV:
+        return _PATTERN_ENV[t[1]]
+    if t[0] == "binop" and t[1] == "Mult":
+        for x, k in ((t[2], t[3]), (t[3], t[2])):
+            if k[0] == "const" and isinstance(k[1], int) and not isinstance(k[1], bool) and 0 <= k[1] <= 8:
+                a = pattern(x)
+                return None if a is None else a * k[1]
+        return None
     if t[0] in ("param", "arg") and t[1] in ("escapechar", "separator", "newline"):
         return "<%s>" % t[1]
     if t[0] == "fstr":
@@ -267,6 +325,8 @@ def rule_csv_tables(ctx: Ctx) -> RuleResult:
     # ---- reader --------------------------------------------------------------
     m, fn = ctx.function(CSV, "create_line_parser.parse_line")
     r.instances += 1
+    _PATTERN_ENV.clear()
+    _PATTERN_ENV.update(pattern_env(m.enclosing_function(fn)))
     reader = None
     split_ok = False
     merge_args_ok = None
@@ -293,6 +353,8 @@ def rule_csv_tables(ctx: Ctx) -> RuleResult:
                                              "a quoted field must be stripped of exactly its first and last character before unescaping; base is %s" % show(base)))
     r.ob(split_ok, lambda: Finding("CS-1", "%s::parse_line{split}" % CSV, m.where(fn), "the line must be split on the separator parameter"))
     inv = [(b, a) for a, b in want_w]
+    if reader is not None and any(x is None for pair in reader for x in pair):
+        raise AnalysisError("csv parse_line: an argument of the unescaping replace chain is not a literal / escapechar pattern the analysis can read")
     r.ob(reader is not None and sorted(reader) == sorted(inv), lambda: Finding(
         "CS-1", "%s::parse_line{unescape-table}" % CSV, m.where(fn),
         "the parser must undo exactly the pairs applied by dump (%s -> inverse %s); it applies %s" % (want_w, inv, reader)))
@@ -442,11 +504,11 @@ class _IndexErr(Exception):
 
 
 # abstract pieces of a split line: (length class, first char is '"', last char is '"', the char before the last is the escape character)
-# the last component: length class of the run of escape characters right before the last character (0: none, 1: an odd number,
-# 2: an even number >= 2).  The writer doubles every escape character and puts one in front of every quote, so a final quote after
+# the last component: length of the run of escape characters right before a final quote (0 .. 4: every test the table knows looks at
+# the parity of the run, at whether it is empty, or at a bounded number of characters before the quote, so five lengths stand for all).  The writer doubles every escape character and puts one in front of every quote, so a final quote after
 # an even run (0, 2, 4, ...) is the closing quote of the field, after an odd run it is an escaped quote that belongs to the text.
 _PIECES = [("E", None, None, None), ("Q", True, True, None), ("C", False, False, None)] + \
-          [("L", a, b, c) for a in (True, False) for b in (True, False) for c in (0, 1, 2)]
+          [("L", a, b, c) for a in (True, False) for b in (True, False) for c in ((0, 1, 2, 3, 4) if b else (0,))]
 
 
 def _piece_name(c):
@@ -456,8 +518,10 @@ def _piece_name(c):
         return "the piece '\"'"
     if c[0] == "C":
         return "a one-character piece other than '\"'"
-    runs = {0: " not preceded by the escape character", 1: " preceded by an odd number of escape characters (an escaped quote)",
-            2: " preceded by an even number (2, 4, ...) of escape characters (escaped escape characters, then the closing quote)"}
+    runs = {0: " not preceded by the escape character", 1: " preceded by one escape character (an escaped quote)",
+            2: " preceded by two escape characters (an escaped escape character, then the closing quote)",
+            3: " preceded by three escape characters (an escaped escape character, then an escaped quote)",
+            4: " preceded by four escape characters (two escaped escape characters, then the closing quote)"}
     return "a piece of two or more characters that %s with '\"', %s%s" % (
         "starts" if c[1] else "does not start", "ends with '\"'" if c[2] else "does not end with '\"'", runs[c[3]] if c[2] else "")
 
@@ -466,7 +530,7 @@ def _merge_spec(c, is_open):
     """what the merger must do with a piece: 'emit' it as a field, 'open' a quoted field with it, 'continue' the open field,
     'close' the open field with it"""
     kind, first, last, esc = c
-    closes = kind == "Q" or (kind == "L" and last and esc in (0, 2))
+    closes = kind == "Q" or (kind == "L" and last and esc % 2 == 0)
     if is_open:
         return "close" if closes else "continue"
     if kind == "Q":
@@ -559,12 +623,20 @@ def _piece_atom(test, T, c):
         if kind in ("E", "Q", "C"):
             even = True
         else:
-            even = esc in (0, 2)
+            even = (esc or 0) % 2 == 0
         return even if par else (not even)
     if test[0] == "mcall" and test[1] == T and test[2] in ("startswith", "endswith") and tuple(test[3]) == (QUOTE,):
         if kind == "E":
             return False
         return (kind == "Q") or (kind == "L" and (first if test[2] == "startswith" else last))
+    if test[0] == "mcall" and test[1] == T and test[2] == "endswith" and len(test[3]) == 1:
+        # endswith(<k escape characters> + '"'): the piece ends with a quote after a run of at least k escape characters
+        pat = pattern(test[3][0])
+        k = 0
+        while pat is not None and pat.startswith("<escapechar>"):
+            pat, k = pat[len("<escapechar>"):], k + 1
+        if pat == '"' and 1 <= k <= 3:
+            return kind == "L" and bool(last) and (esc or 0) >= k
     if test == T or test == ("call", ("builtin", "len"), (T,)):
         return kind != "E"
     raise AnalysisError("merge_escape_parts: the test %s on a piece of the split line is not one the classification table knows" % show(test))
